@@ -700,6 +700,33 @@ def flatten_out(v):
     return [v]
 
 
+def ctx_versions(ctx):
+    """storage id -> (version, description) of every tensor the forward pass left on the autograd context
+    (save_for_backward and plain attributes)"""
+    out = {}
+
+    def walk(v, where):
+        if isinstance(v, DataT):
+            out[v.storage.id] = (v.storage.version, where, v.storage)
+        elif isinstance(v, (tuple, list)):
+            for i, x in enumerate(v):
+                walk(x, '%s[%d]' % (where, i))
+        elif isinstance(v, dict):
+            for k, x in v.items():
+                walk(x, '%s[%r]' % (where, k))
+    walk(getattr(ctx, '_saved', None) or (), 'ctx.saved_tensors')
+    for k, v in (getattr(ctx, '_attrs', None) or {}).items():
+        walk(v, 'ctx.' + str(k))
+    return out
+
+
+def ctx_mutations(before):
+    """tensors of the context whose storage was written since ctx_versions(): a second backward through the same
+    graph (retain_graph, one grad call per output, jacobian) would then see other values than the first"""
+    return ['%s (written in place %d time(s))' % (where, st.version - v0)
+            for _, (v0, where, st) in sorted(before.items()) if st.version != v0]
+
+
 def check_backward(S, rec, diff_slots, needs, margin, label, canon=None):
     """Run rec.cls.backward on fresh cotangents and compare with the transposed forward operator.
     rec: ApplyRecord whose tensor inputs are base tensors.  Returns list of (slot, what, msg)."""
@@ -717,12 +744,16 @@ def check_backward(S, rec, diff_slots, needs, margin, label, canon=None):
         bwd = bwd.func
     if not isinstance(bwd, PyFunc):
         raise AnalysisError('anchor-missing', '%s.backward' % rec.cls.name)
+    saved0 = ctx_versions(rec.ctx)
     S.interp.nograd += 1
     try:
         o = S.run(bwd, rec.ctx, *cot_ts)
     finally:
         S.interp.nograd = 0
     problems = []
+    for m in ctx_mutations(saved0):
+        problems.append((None, 'saved-state-mutated', 'backward overwrites %s: a repeated backward through the same '
+                         'graph no longer computes J^T g' % m, None))
     if o.kind != 'ok':
         e = o.exc
         problems.append((None, 'raises' if o.kind == 'raises' else e.rule,
